@@ -209,7 +209,7 @@ func (h *H) checkDecodePaths(root *vlib.Rand) {
 		res.Require(b64url(d) == base64.RawURLEncoding.EncodeToString(d), "harness: own base64url encoder is wrong")
 	}
 
-	n := vlib.Scale(20000, 1500000)
+	n := vlib.Scale(20000, 600000)
 	for i := 0; i < n; i++ {
 		r := root.SplitN("path", i)
 		cls := padClasses[i%len(padClasses)]
@@ -237,7 +237,7 @@ func (h *H) checkDecodePaths(root *vlib.Rand) {
 	}
 
 	// the real encoder
-	n = vlib.Scale(5000, 300000)
+	n = vlib.Scale(5000, 150000)
 	for i := 0; i < n; i++ {
 		r := root.SplitN("encpath", i)
 		d := genData(r)
@@ -341,7 +341,7 @@ func (h *H) checkDecodePaths(root *vlib.Rand) {
 		}
 	}
 	// totality
-	n = vlib.Scale(20000, 1000000)
+	n = vlib.Scale(20000, 500000)
 	for i := 0; i < n; i++ {
 		r := root.SplitN("arbpath", i)
 		b := r.Bytes(r.Range(0, 40))
@@ -871,7 +871,7 @@ func (h *H) checkCacheURL(id, scheme, domain, port, pubPath, query, frag string,
 
 func (h *H) checkCacheURLs(root *vlib.Rand) {
 	res := h.res
-	n := vlib.Scale(30000, 1500000)
+	n := vlib.Scale(30000, 400000)
 	for i := 0; i < n; i++ {
 		r := root.SplitN("url", i)
 		id := fmt.Sprintf("url/%d", i)
